@@ -160,6 +160,14 @@ func init() {
 		vfC01Outcome{name: "breaker.ErrServiceUnavailable-from-handler", fail: true, isUnav: true,
 			mk: func(int64) error { return breaker.ErrServiceUnavailable }},
 		vfC01Outcome{name: "panic", fail: true, panic: true},
+		// a status error wrapped with %w: grpc's status.Code looks through the wrapping, and so does the
+		// site's predicate on the unchanged tree
+		vfC01Outcome{name: "wrapped-status-Unavailable", fail: true, mk: func(id int64) error {
+			return fmt.Errorf("verif wrapped #%d: %w", id, status.Error(codes.Unavailable, "verif"))
+		}},
+		vfC01Outcome{name: "wrapped-status-Internal", fail: true, mk: func(id int64) error {
+			return fmt.Errorf("verif wrapped #%d: %w", id, status.Error(codes.Internal, "verif"))
+		}},
 	)
 	vfC01OkOuts = append(vfC01OkOuts, vfC01Outcome{name: "nil", mk: func(int64) error { return nil }})
 	for _, c := range vfC01OkCodes {
@@ -170,6 +178,9 @@ func init() {
 		vfC01Outcome{name: "context.Canceled", mk: func(int64) error { return context.Canceled }},
 		vfC01Outcome{name: "foreign-error-with-status-NotFound", mk: func(id int64) error {
 			return &vfC01StatusErr{st: status.New(codes.NotFound, "verif"), id: id}
+		}},
+		vfC01Outcome{name: "wrapped-status-NotFound", mk: func(id int64) error {
+			return fmt.Errorf("verif wrapped #%d: %w", id, status.Error(codes.NotFound, "verif"))
 		}},
 	)
 }
